@@ -434,13 +434,17 @@ def h_ne16_rejects(H, kind):
     H.ensure('ne16:rejects-non-8-bit-activations', raised == (not H.eq(a, 8)) if not H.symbolic else H.iff(raised, H.not_(H.eq(a, 8))))
     if kind in ('3x3', 'dw'):
         s2, _, _, _, _ = _ne16_spec(H, kind, 'K', torch.tensor(1.0))
-        s2['kernel_size'] = (5, 5)
+        kx, ky = H.int('kx'), H.int('ky')
+        H.assume(H.and_(kx >= 1, kx <= 5, ky >= 1, ky <= 5))
+        kx, ky = H.concretize(kx), H.concretize(ky)
+        s2['kernel_size'] = (kx, ky)
         bad = False
         try:
             fn(s2)
         except AssertionError:
             bad = True
-        H.ensure('ne16:rejects-unsupported-kernel', bad)
+        supported = (kx == 3 and ky == 3) or (kind == '3x3' and kx == 1 and ky == 1)
+        H.ensure('ne16:rejects-exactly-the-unsupported-kernels', bad == (not supported))
     s3, _, _, _, _ = _ne16_spec(H, kind, 'Z', torch.tensor(1.0))
     s3['w_precision'] = torch.tensor(0)
     H.ensure('ne16:zero-bit-weights-cost-nothing', H.eq(H.scalar(fn(s3)), 0))
